@@ -4,6 +4,7 @@
 # runs one check against it (XSIM_REPO points the build at the scratch tree), removes the worktree.
 set -u
 PATCH="$1"; shift
+case "$PATCH" in -R:*) ;; /*) ;; *) PATCH="$(pwd)/$PATCH" ;; esac
 WT=$(mktemp -d /var/tmp/xsim-wt-XXXXXX)
 rmdir "$WT"
 git -C /repo worktree add -q --detach "$WT" HEAD || exit 3
